@@ -188,15 +188,28 @@ deriving Repr
 
 def PState.raise (s : PState) (e : Err) : PState := { s with lastErr := e }
 
-/-- attribute loop body of `s_load_node_decl` for one `name=value` piece -/
-def loadAttr (doc : Bytes) (pair : Cur) (le : Err) : Except Fault (Option Attr × Err) := do
-  let r ← splitOnChar doc pair EQS 2
+/-- `aws_byte_cursor_split_on_char_n(inp, c, 1, out)` into a static list of 2 cursors: the piece before the
+first `c` and *the rest of the string* (which may contain further `c`s); one piece if there is no `c`.
+Two `aws_byte_cursor_next_split` calls, i.e. two `memchr`s: the second one's result is overwritten by
+"take the rest".  With at most two pieces the push into the 2-element list cannot fail. -/
+def splitOnCharN1 (doc : Bytes) (inp : Cur) (c : UInt8) : Except Fault (List Cur) := do
+  let r ← memchr doc inp.off inp.len c
   match r with
-  | none => return (none, .listExceeds)       -- more than one '=': silently skipped
-  | some ps =>
-    let nm : View := ps[0]?
-    let v ← trimQuotes doc ps[1]?
-    return (some ⟨nm, v⟩, le)
+  | none => return [⟨inp.off, inp.len⟩]
+  | some k =>
+    let start := inp.off + k + 1
+    let rem := inp.len - (k + 1)
+    let _ ← memchr doc start rem c
+    return [⟨inp.off, k⟩, ⟨start, rem⟩]
+
+/-- attribute loop body of `s_load_node_decl` for one `name=value` piece: split at the first '=' only.
+The split cannot fail any more, so every piece yields an attribute (`some`); the `Option` is kept for
+the `if (!aws_byte_cursor_split_on_char_n(…))` of the code. -/
+def loadAttr (doc : Bytes) (pair : Cur) (le : Err) : Except Fault (Option Attr × Err) := do
+  let ps ← splitOnCharN1 doc pair EQS
+  let nm : View := ps[0]?
+  let v ← trimQuotes doc ps[1]?
+  return (some ⟨nm, v⟩, le)
 
 def loadAttrs (doc : Bytes) : List Cur → Err → Except Fault (List Attr × Err)
   | [], le => .ok ([], le)
